@@ -175,7 +175,32 @@ pub struct Poller {
     /// wake counter of the waker presented at the most recent poll
     pub last: Arc<CountWaker>,
     all: Vec<Arc<CountWaker>>,
+    /// polls made in `fresh` mode (decides the kind of the next waker)
+    polls: usize,
+    alias: Option<&'static AliasData>,
 }
+
+/// Wakers that share this one data pointer and differ in their vtable; slot k counts the wake-ups
+/// of the waker built on vtable k. Leaked on purpose (a waker may outlive the poller).
+pub struct AliasData {
+    c: [Arc<CountWaker>; ALIAS_SLOTS],
+}
+const ALIAS_SLOTS: usize = 8;
+
+macro_rules! alias_vt {
+    ($k:literal) => {{
+        unsafe fn cl(d: *const ()) -> std::task::RawWaker {
+            std::task::RawWaker::new(d, &ALIAS_VT[$k])
+        }
+        unsafe fn wk(d: *const ()) {
+            let data: &AliasData = &*(d as *const AliasData);
+            data.c[$k].0.fetch_add(1, Ordering::SeqCst);
+        }
+        unsafe fn dr(_: *const ()) {}
+        std::task::RawWakerVTable::new(cl, wk, wk, dr)
+    }};
+}
+static ALIAS_VT: [std::task::RawWakerVTable; ALIAS_SLOTS] = [alias_vt!(0), alias_vt!(1), alias_vt!(2), alias_vt!(3), alias_vt!(4), alias_vt!(5), alias_vt!(6), alias_vt!(7)];
 
 impl Drop for Poller {
     fn drop(&mut self) {
@@ -199,6 +224,8 @@ impl Poller {
             dead: false,
             fresh: false,
             hop_threads: false,
+            polls: 0,
+            alias: None,
         }
     }
 
@@ -232,10 +259,31 @@ impl Poller {
             return o;
         }
         if self.fresh {
-            let wk = Arc::new(CountWaker(AtomicUsize::new(0)));
-            self.waker = Waker::from(wk.clone());
-            self.last = wk.clone();
-            self.all.push(wk);
+            // Two kinds of "different waker", in the fixed rotation alias, alias, arc, arc: wakers
+            // built on a fresh Arc (another data pointer), and wakers that SHARE one data pointer
+            // and differ only in their vtable (legal, and `will_wake` is false between them) --
+            // an implementation that compares data pointers instead of calling `will_wake` keeps
+            // the stale one.
+            let k = self.polls;
+            self.polls += 1;
+            if k % 4 < 2 {
+                let slot = ((k / 4) * 2 + k % 4) % ALIAS_SLOTS;
+                let data = self.alias.get_or_insert_with(|| {
+                    let d: &'static AliasData = Box::leak(Box::new(AliasData { c: std::array::from_fn(|_| Arc::new(CountWaker(AtomicUsize::new(0)))) }));
+                    d
+                });
+                let wk = data.c[slot].clone();
+                if !self.all.iter().any(|w| Arc::ptr_eq(w, &wk)) {
+                    self.all.push(wk.clone());
+                }
+                self.last = wk;
+                self.waker = unsafe { Waker::from_raw(std::task::RawWaker::new(*data as *const AliasData as *const (), &ALIAS_VT[slot])) };
+            } else {
+                let wk = Arc::new(CountWaker(AtomicUsize::new(0)));
+                self.waker = Waker::from(wk.clone());
+                self.last = wk.clone();
+                self.all.push(wk);
+            }
         }
         let mut cx = Context::from_waker(&self.waker);
         let r = catch_unwind(AssertUnwindSafe(|| self.body.as_mut().poll_frame(&mut cx)));
